@@ -163,7 +163,7 @@ pub fn run(ctx: &Ctx) -> Report
          successful build, at least one in-scope rule resolved without running its command; distinct by hash of the generated case");
     rep.assume("commands are deterministic functions of their declared sources (harness command language)");
     rep.assume("any two distinct file writes carry distinct modification times (Distinct clock)");
-    let (cases, max_rules, max_ops) = ctx.tier.pick((15000u32, 6usize, 16usize), (200000, 12, 40));
+    let (cases, max_rules, max_ops) = ctx.tier.pick((30000u32, 6usize, 16usize), (200000, 12, 40));
     rep.absorb(drive::drive(ctx, 1, cases, || strategy(max_rules, max_ops), test_case));
     // end-to-end anchor: a slice of histories through the real binary and file system with /bin/sh commands
     let mut real = crate::verif::props::realp::run_c01_real(ctx, ctx.tier.pick(24, 300));
